@@ -124,6 +124,21 @@ def one_case(args):
                     return bad("codes: total_errors changed to %s under -w" % r3.total_errors(), r3)
                 out["key"] = (kind, tuple(sorted(codes))[:3], len(want_list) > 0)
                 return out
+            elif kind == "cap" and k and rng.random() < 0.5:
+                # cap together with a code filter: the first N of the collected messages that carry a listed leading code are shown
+                cap = rng.choice([1, 2, 3, max(1, k - 1)])
+                lead0 = [obs.Msg(t).code for t in shown0]
+                present = sorted(set(c for c in lead0 if c))
+                codes = rng.sample(present, min(len(present), rng.choice([1, 2]))) or ["10"]
+                r5 = run([p] + margs + ["-e", str(cap), "-w"] + codes, stats="json")
+                if r5.abnormal(allowed_rc=(0,)) or r5.stats is None:
+                    return bad("cap+codes: %s" % r5.abnormal(allowed_rc=(0,)), r5)
+                es5 = r5.stats["error_stats"]
+                collected = es5["reported_errors"] + es5["custom_checks_stats_errors"]
+                want5 = [t.rstrip() for t in collected if obs.Msg(t).code in codes][:cap]
+                got5 = [m.text.rstrip() for m in r5.displayed_errors()]
+                if got5 != want5:
+                    return bad("cap+codes: -e %d -w %s shows %d messages; the first %d collected messages with these codes are %d" % (cap, " ".join(codes), len(got5), cap, len(want5)), r5)
             elif kind == "cap" and k:
                 cap = rng.choice([1, 2, max(1, k - 1), k, k + 1])
                 r4 = run([p] + margs + ["-e", str(cap), "-E", str(N)], stats="json")
